@@ -15,4 +15,9 @@ CLAIMS = {
         "note": "Trusted: ASE's JSON encoder round-trips ndarray/Atoms/Cell; Python import semantics as modelled (module-level statements, partially initialised modules, submodule fallback). Callables and user-registered classes are outside. ForceBias/AdaptiveForceBias serialization gaps are listed known findings.",
         "technique": "abstract interpretation of to_dict chains into schemas + constructor-chain resolution + registry/lookup table comparison + import-order simulation",
     },
+    "C07": {
+        "text": "Structural necessary conditions of restart, each decided for every driver class: the function ASE's encoder executes (obj.todict()) is the most-derived to_dict (alias-vs-override analysis), both ends exist, the file dictionary covers the constructor and the keys from_dict indexes, every context slot is emitted / a handle / per-trial scratch / recomputed before the first step, from_dict restores generator state in place after construction plus attributes, context and move table, and every class name that can occur in the file resolves. Failure of any one makes every restart of the affected configuration wrong or impossible.",
+        "note": "Not decided: step-for-step equality of the resumed trajectory (behavioural), JSON number round trip (ASE encoder, trusted; its use of obj.todict() is validated against the installed ASE source on every run). ForceBias/AdaptiveForceBias restart is a listed known finding.",
+        "technique": "class-alias/override resolution + abstract interpretation of to_dict/from_dict + slot coverage tables",
+    },
 }
